@@ -260,6 +260,24 @@ def _outside_reader(edges, P, dest, desc):
     return False
 
 
+def strict_descendants(spec, node):
+    """nodes that depend on `node` UNCONDITIONALLY: reachable without passing a candidate -> consumer or
+    case -> consumer edge (a reader that is downstream of a recurrent destination only through such a lazy edge does not
+    wait for the destination when another candidate / case is taken: known finding K05)"""
+    lazy = set()
+    for n in spec['nodes']:
+        for _, m in n.get('params', ()):
+            if m[0] == 'Switch':
+                lazy.update((c, n['name']) for _, c in m[3])
+            elif m[0] == 'OneOf':
+                lazy.update((c, n['name']) for c in m[1])
+    succ = {}
+    for a, b in declared_edges(spec):
+        if (a, b) not in lazy:
+            succ.setdefault(a, set()).add(b)
+    return _closure(succ, node)
+
+
 def gen_rec_nested(rng, faults=True, n_max=10, **kw):
     """two nested recurrent subgraphs (inner path inside the outer path) over a plain DAG"""
     for _ in range(60):
@@ -378,7 +396,7 @@ def overlay_rec(rng, spec, tries=40, accept=None):
         if isinstance(nodes[start].get('value'), dict):
             continue
         P = path_set(spec, start, dest)
-        if _outside_reader(edges, P, dest, _closure(succ, dest)):
+        if _outside_reader(edges, P, dest, strict_descendants(spec, dest)):
             continue
         if accept is not None and not accept(start, dest, P, {b for a, b in edges if a in P}):
             continue
